@@ -6,4 +6,5 @@ MODULES = [
     'harness.c03',
     'harness.c15',
     'harness.c16',
+    'harness.c07',
 ]
